@@ -111,6 +111,7 @@ type appScenario struct {
 
 func c03app(e *env) {
 	w := rig.NewWriter(e.out, "C03", e.tier, e.seed)
+	w.Res.Cases = []rig.Case{}
 	repo := c18Repo()
 	bin := filepath.Join(e.out, "memproxy-real")
 	bld := exec.Command("go", "build", "-o", bin, "app/memproxy.go")
